@@ -518,6 +518,18 @@ def run_content(spec, ctx):
                 check_content(path, tagged, out, flt, ctx, spec)
                 out2 = AllowFilter.filter_content(list(lines), dict(flt))
                 check_content("filter_content", tagged, out2, flt, ctx, spec)
+                # filters are matched against the ORIGINAL line: a line whose only match is text the cleaner rewrites afterwards
+                # (the secret behind a 'password' key is always masked) is kept - masked, but kept
+                import re as _re
+                for f_ in flt:
+                    if _re.match(r"^[a-zA-Z0-9_]{2,}$", f_) and "password" not in f_.lower():
+                        probe = ["#901|zzz qq", "#902|svc password: %s" % f_, "#903|lorem"]
+                        got_ = cleaner.clean_content(list(probe), allowlist={f_: flt[f_]})
+                        ctx.count("lines_matching_only_through_rewritten_text")
+                        if not any(l_.startswith("#902|") for l_ in got_):
+                            ctx.violation("matching-line-dropped-before-budget-used-up", {"path": "cleaner", "filter": f_, "budget": flt[f_], "line": probe[1],
+                                                                                           "output": got_[:3], "note": "the match is in text the cleaner masks afterwards"}, spec=spec)
+                        break
             elif path == "apply":
                 out = list(filters.apply_filters(S.f, list(lines)))
                 check_content(path, tagged, out, dict((f, 10 ** 9) for f in flt), ctx, spec)
